@@ -55,6 +55,10 @@ pub fn decimal_strcmp(a: &str, b: &str) -> Option<Ordering> {
 /// * `b` - Second number string (digits only, no sign)
 /// * `b_neg` - Whether second number is negative
 pub fn decimal_strcmp_with_sign(a: &str, a_neg: bool, b: &str, b_neg: bool) -> Ordering {
+    // Zero has no sign: "-0" equals "0"
+    let a_neg = a_neg && !is_zero_magnitude(a);
+    let b_neg = b_neg && !is_zero_magnitude(b);
+
     // Different signs: negative < positive
     match (a_neg, b_neg) {
         (true, false) => return Ordering::Less,
@@ -111,6 +115,10 @@ pub fn realnum_strcmp(a: &str, b: &str) -> Option<Ordering> {
 
 /// Compare two real number strings with pre-parsed signs
 pub fn realnum_strcmp_with_sign(a: &str, a_neg: bool, b: &str, b_neg: bool) -> Ordering {
+    // Zero has no sign: "-0.0" equals "0"
+    let a_neg = a_neg && !is_zero_magnitude(a);
+    let b_neg = b_neg && !is_zero_magnitude(b);
+
     // Different signs: negative < positive
     match (a_neg, b_neg) {
         (true, false) => return Ordering::Less,
@@ -118,17 +126,17 @@ pub fn realnum_strcmp_with_sign(a: &str, a_neg: bool, b: &str, b_neg: bool) -> O
         _ => {}
     }
 
-    // Find decimal point positions
-    let a_dot = a.find('.').unwrap_or(a.len());
-    let b_dot = b.find('.').unwrap_or(b.len());
+    // Split into integer and fractional digits
+    let (a_int, a_frac) = split_at_dot(a);
+    let (b_int, b_frac) = split_at_dot(b);
 
-    let cmp = if a_dot == b_dot {
-        // Same integer part length - lexicographic comparison works
-        a.cmp(b)
-    } else {
-        // Different integer part lengths - longer integer part is larger
-        a_dot.cmp(&b_dot)
-    };
+    // Integer parts compare by value (leading zeros ignored); fractional parts
+    // compare lexicographically once trailing zeros are dropped
+    let cmp = compare_decimal_magnitude(a_int, b_int).then_with(|| {
+        a_frac
+            .trim_end_matches('0')
+            .cmp(b_frac.trim_end_matches('0'))
+    });
 
     // For negative numbers, reverse the comparison
     if a_neg {
@@ -163,6 +171,19 @@ fn parse_sign(s: &str) -> Option<(&str, bool)> {
             }
         }
         _ => Some((s, false)),
+    }
+}
+
+// Helper: true if the unsigned numeric string denotes zero (only '0' and '.')
+fn is_zero_magnitude(s: &str) -> bool {
+    s.bytes().all(|c| c == b'0' || c == b'.')
+}
+
+// Helper: split an unsigned real number string into (integer digits, fractional digits)
+fn split_at_dot(s: &str) -> (&str, &str) {
+    match s.find('.') {
+        Some(pos) => (&s[..pos], &s[pos + 1..]),
+        None => (s, ""),
     }
 }
 
